@@ -5,7 +5,7 @@
    several handles on one chunk file.  `F` is the content of the file AFTER the metadata header
    (fileBaseOffset); the header itself is represented by the `meta` bytes kept beside it.
 
-   Not modelled: compression (only NoCompression), Copy, failing OS calls (write/seek/fsync never
+   Not modelled: compression (only NoCompression), failing OS calls (write/seek/fsync never
    fail, so retryableSync only changes WHEN the write buffer is released), negative offsets
    (offsets are N), the read buffer size (unused by AppendableFile itself).
    Go slice expressions on the write buffer are total here (`slice`, `upd`); that their indices are
@@ -169,6 +169,16 @@ Definition h_close (h : hnd) (F : bytes) : hnd * bytes * out :=
     let '(h1, F1) := if h_ro h then (h, F) else h_flush h F in
     (mkh (h_fo h1) (h_pos h1) (h_seek h1) (h_wbuf h1) (h_fl h1) (h_uw h1) (h_ro h1) (h_retry h1) (h_auto h1) true, F1, OOk).
 
+(* Copy(dst): flush, seekRequired = true, Seek(0, start), io.Copy(dst, f) — the WHOLE physical file
+   (header, then every byte of the file, also those beyond fileOffset); the OS position ends at the
+   physical end.  The result is what a read-only Open of the copy then holds. *)
+Definition h_copy (h : hnd) (F : bytes) : hnd * bytes * out :=
+  if h_closed h then (h, F, OErr)
+  else
+    let '(h1, F1) := h_flush h F in
+    (mkh (h_fo h1) (len F1) true (h_wbuf h1) (h_fl h1) (h_uw h1) (h_ro h1) (h_retry h1) (h_auto h1) (h_closed h1),
+     F1, OCopy F1).
+
 (* ---- the single-file appendable: one handle on one file ---- *)
 Record sapp := mks { s_h : hnd; s_file : bytes; s_meta : bytes }.
 
@@ -194,6 +204,7 @@ Definition s_step (s : sapp) (o : op) : sapp * out :=
         if opts_valid o then (mks (h_open F (ro_nobuf o)) F m, OOk) else (s, OErr)
       else (s, OErr)
   | Meta => (s, OBytes m)
+  | Copy => let '(h', F', x) := h_copy h F in (mks h' F' m, x)
   end.
 
 Fixpoint s_run (s : sapp) (ops : list op) : list out :=
@@ -211,13 +222,15 @@ Fixpoint s_state (s : sapp) (ops : list op) : sapp :=
 (* ---- where the code departs from the byte-array specification ----
    The file may hold bytes beyond fileOffset (after SetOffset below fileOffset — the file is never
    truncated — or because it was preallocated).  readAt clamps the file read to fileOffset, but
-   Open takes the file end as the size, so a reopen is the one step that observes the stale tail: *)
+   Open takes the file end as the size, so a reopen observes the stale tail — of the file itself or
+   of a Copy of it (Copy copies the physical file): *)
 Definition h_tail (h : hnd) (F : bytes) : bool := h_fo h <? len F.
 
 Definition s_risky (s : sapp) (o : op) : bool :=
   let h := s_h s in
   match o with
   | Reopen _ => h_closed h && h_tail h (s_file s)
+  | Copy => negb (h_closed h) && (h_offset h <? len (s_file s))   (* the copy carries the stale tail *)
   | _ => false
   end.
 
